@@ -12,6 +12,9 @@ A case is a JSON-able dict:
 Three parties: the implementation, the Gallina model (exact comparison of every returned field), and an oracle written
 from the property text (validity predicate, re-ordering, index shift, mapping, displacement) that works on the INPUT
 tables only.
+A share of the table sets is run once more with every public entry point called FULLY POSITIONALLY (parameter order of the
+pristine signatures, hard-coded below, non-default values): same answer as the keyword call and the property on it
+(run_positional; keys C19:<entry point>:positional-call).
 """
 import itertools
 import json
@@ -372,6 +375,24 @@ def canon(o):
     return "obj:%r" % (o,)
 
 
+def fields_func(kind, r):
+    """the tuple returned by check_on_geo1/2 as canonical field strings"""
+    if kind == "geo1":
+        return [",".join(map(str, r[0])), show_df(r[1]), show_body(np.asarray(r[2]).tolist())] + [show_arr(x) for x in r[3:]]
+    return [",".join(map(str, r[0]))] + [show_df(x) for x in r[1:5]] + [show_arr(x) for x in r[5:]]
+
+
+def fields_obj(kind, o):
+    """the geometry stored on a setup object as canonical field strings (same order as fields_func)"""
+    if kind == "geo1":
+        g = o.geo1
+        return [",".join(map(str, g.sens_names)), show_df(g.sens_coord), show_body(np.asarray(g.sens_dir).tolist()),
+                show_arr(g.sens_lines), show_arr(g.bg_nodes), show_arr(g.bg_lines), show_arr(g.bg_surf)]
+    g = o.geo2
+    return [",".join(map(str, g.sens_names)), show_df(g.pts_coord), show_df(g.sens_map), show_df(g.cstrn), show_df(g.sens_sign),
+            show_arr(g.sens_lines), show_arr(g.sens_surf), show_arr(g.bg_nodes), show_arr(g.bg_lines), show_arr(g.bg_surf)]
+
+
 def call_impl(case, pools, inputs=None, obj=None):
     """-> ("ok", [field strings], obj, mutated) | ("err", ExcName, message, mutated);
     mutated = names of the input tables that differ from their pristine copy after the call"""
@@ -386,25 +407,15 @@ def call_impl(case, pools, inputs=None, obj=None):
             fd = dict(inp)  # a fresh dict: the function is documented to edit the dict, never the tables in it
             ref = None if case["ref"] is None else [list(r) for r in case["ref"]]
             r = (gen.check_on_geo1 if kind == "geo1" else gen.check_on_geo2)(fd, ref_ind=ref)
-            if kind == "geo1":
-                out = [",".join(map(str, r[0])), show_df(r[1]), show_body(np.asarray(r[2]).tolist())] + [show_arr(x) for x in r[3:]]
-            else:
-                out = [",".join(map(str, r[0]))] + [show_df(x) for x in r[1:5]] + [show_arr(x) for x in r[5:]]
-            return ("ok", out, None, changed())
+            return ("ok", fields_func(kind, r), None, changed())
         o = pools.obj(case) if obj is None else obj
         if kind == "geo1":
             kw = {ARG1[k]: inp[k] for k in G1_OPT if k in inp}
             o.def_geo1(inp.get("sensors names"), inp["sensors coordinates"], inp["sensors directions"], **kw)
-            g = o.geo1
-            out = [",".join(map(str, g.sens_names)), show_df(g.sens_coord), show_body(np.asarray(g.sens_dir).tolist()),
-                   show_arr(g.sens_lines), show_arr(g.bg_nodes), show_arr(g.bg_lines), show_arr(g.bg_surf)]
         else:
             kw = {ARG2[k]: inp[k] for k in G2_OPT if k in inp}
             o.def_geo2(inp.get("sensors names"), inp["points coordinates"], inp["mapping"], **kw)
-            g = o.geo2
-            out = [",".join(map(str, g.sens_names)), show_df(g.pts_coord), show_df(g.sens_map), show_df(g.cstrn), show_df(g.sens_sign),
-                   show_arr(g.sens_lines), show_arr(g.sens_surf), show_arr(g.bg_nodes), show_arr(g.bg_lines), show_arr(g.bg_surf)]
-        return ("ok", out, o, changed())
+        return ("ok", fields_obj(kind, o), o, changed())
     except Exception as e:  # noqa: BLE001 - the kind of exception is the observation
         return ("err", type(e).__name__, str(e)[:160].replace("\n", " "), changed())
 
@@ -489,6 +500,329 @@ def call_plot(case, obj):
     except Exception as e:  # noqa: BLE001
         plt.close("all")
         return ("err", type(e).__name__, str(e)[:160])
+
+
+# ------------------------------------------------------------------ positional call forms
+# Parameter order of the PRISTINE public signatures, written down here on purpose (never read from the tree under test:
+# a changed signature must not redefine the order a documented positional call relies on).
+#   gen.check_on_geo1(file_dict, ref_ind)            gen.check_on_geo2(file_dict, ref_ind, fill_na)
+#   gen.flatten_sns_names(sens_names, ref_ind)       gen.dfphi_map_func(phi, sens_names, sens_map, cstrn)
+#   def_geo1(sens_names, sens_coord, sens_dir, sens_lines, bg_nodes, bg_lines, bg_surf)
+#   def_geo2(sens_names, pts_coord, sens_map, cstr, sens_sign, sens_lines, sens_surf, bg_nodes, bg_lines, bg_surf)
+#   plot_mode_geo1(algo_res, mode_nr, scaleF, view, col_sns, col_sns_lines, col_BG_nodes, col_BG_lines, col_BG_surf)
+#   plot_mode_geo2_mpl(algo_res, mode_nr, scaleF, view, color)
+#   Geo1MplPlotter(geo, res).plot_mode(mode_nr, scaleF, view, col_sns, col_sns_lines, col_BG_nodes, col_BG_lines, col_BG_surf)
+#   Geo2MplPlotter(geo, res).plot_mode(mode_nr, scaleF, view, color)
+POS_G1 = ["sensors names", "sensors coordinates", "sensors directions", "sensors lines", "BG nodes", "BG lines", "BG surfaces"]
+POS_G2 = ["sensors names", "points coordinates", "mapping", "constraints", "sensors sign", "sensors lines", "sensors surfaces",
+          "BG nodes", "BG lines", "BG surfaces"]
+POS_COLS1 = ["blue", "green", "orange", "purple", "cyan"]  # col_sns, col_sns_lines, col_BG_nodes, col_BG_lines, col_BG_surf: all non-default, all distinct
+FILL_OTHER = "none"  # a fill_na value other than the default "zero"
+
+
+def pos_key(site):
+    return "C19:%s:positional-call" % site
+
+
+def call_impl_pos(case, pools, fill=None):
+    """the definition of call_impl made FULLY POSITIONALLY (None at the place of an omitted optional table)
+    -> ("ok", fields, obj) | ("err", ExcName, message).  fill: third positional argument of check_on_geo2 (None = "zero")"""
+    from pyoma2.functions import gen
+
+    kind = case["kind"]
+    inp = build_inputs(case)
+    try:
+        if case["path"] == "func":
+            fd = dict(inp)
+            ref = None if case["ref"] is None else [list(r) for r in case["ref"]]
+            r = gen.check_on_geo1(fd, ref) if kind == "geo1" else gen.check_on_geo2(fd, ref, "zero" if fill is None else fill)
+            return ("ok", fields_func(kind, r), None)
+        o = pools.obj(case)
+        args = [inp.get(k) for k in (POS_G1 if kind == "geo1" else POS_G2)]
+        (o.def_geo1 if kind == "geo1" else o.def_geo2)(*args)
+        return ("ok", fields_obj(kind, o), o)
+    except Exception as e:  # noqa: BLE001
+        return ("err", type(e).__name__, str(e)[:160].replace("\n", " "))
+
+
+def call_geo2_fill_kw(case, fill):
+    """check_on_geo2 with a non-default fill_na given BY KEYWORD (reference of the positional form)"""
+    from pyoma2.functions import gen
+
+    try:
+        ref = None if case["ref"] is None else [list(r) for r in case["ref"]]
+        return ("ok", fields_func("geo2", gen.check_on_geo2(dict(build_inputs(case)), ref_ind=ref, fill_na=fill)), None)
+    except Exception as e:  # noqa: BLE001
+        return ("err", type(e).__name__, str(e)[:160].replace("\n", " "))
+
+
+def same_outcome(a, b):
+    """two call_impl-style outcomes agree: same field strings, or the same kind of exception"""
+    if a[0] != b[0]:
+        return False
+    return a[1] == b[1]
+
+
+def show_outcome(a):
+    if a[0] == "ok":
+        return "a geometry"
+    return "%s (%s)" % (a[1], a[2])
+
+
+def fingerprint(ax):
+    """everything a mode plot shows, as comparable text: view angles, title, limits, every artist with coordinates and colours"""
+    from matplotlib.colors import to_rgba
+
+    out = ["view:%r:%r" % (float(ax.elev), float(ax.azim)), "title:%s" % ax.get_title(),
+           "lim:%r" % ([float(v) for v in ax.get_xlim3d()] + [float(v) for v in ax.get_ylim3d()] + [float(v) for v in ax.get_zlim3d()],)]
+    for ln in ax.lines:
+        xs, ys, zs = ln.get_data_3d()
+        out.append("line:%r:%r:%r" % (np.array([np.asarray(xs, float), np.asarray(ys, float), np.asarray(zs, float)]).tolist(), to_rgba(ln.get_color()), ln.get_alpha()))
+    for c in ax.collections:
+        nm = type(c).__name__
+        geom = None
+        if nm == "Path3DCollection":
+            geom = [np.asarray(np.ma.getdata(a), float).tolist() for a in c._offsets3d]
+        elif getattr(c, "_faces", None) is not None:
+            geom = np.asarray(c._faces, float).tolist()
+        elif getattr(c, "_segments3d", None) is not None:
+            geom = np.asarray(c._segments3d, float).tolist()
+        arr = c.get_array()
+        out.append("%s:%r:%r:%r:%r:%r" % (nm, geom, np.asarray(c.get_facecolor()).tolist(), np.asarray(c.get_edgecolor()).tolist(),
+                                         None if arr is None else np.asarray(arr, float).tolist(), c.get_alpha()))
+    for t in ax.texts:
+        out.append("text:%s:%r" % (t.get_text(), tuple(float(v) for v in t.get_position())))
+    return out
+
+
+def plot_forms(case, obj, pl):
+    """the mode plot of one geometry in three forms with the same NON-default values of every parameter: keywords through the
+    setup method, positional through the setup method, positional through the plotter class.
+    -> {form: ("ok", collected, fingerprint) | ("err", ExcName, message)}"""
+    import matplotlib.pyplot as plt
+    from pyoma2.algorithms.data.result import BaseResult
+    from pyoma2.support.geometry.mpl_plotter import Geo1MplPlotter, Geo2MplPlotter
+
+    Phi = np.array(pl["Phi"], float)
+    m, s, v = pl["mode"], pl["scale"], pl["view"]
+    c1, c2, c3, c4, c5 = POS_COLS1
+    col = pl["color"]
+
+    def one(f):
+        res = BaseResult(Fn=np.arange(1, Phi.shape[1] + 1, dtype=float), Phi=Phi.copy())
+        try:
+            fig, ax = f(res)
+            out = ("ok", collect(ax), fingerprint(ax))
+            plt.close(fig)
+            return out
+        except Exception as e:  # noqa: BLE001
+            plt.close("all")
+            return ("err", type(e).__name__, str(e)[:160].replace("\n", " "))
+
+    if case["kind"] == "geo1":
+        return {
+            "keyword": one(lambda r: obj.plot_mode_geo1(algo_res=r, mode_nr=m, scaleF=s, view=v, col_sns=c1, col_sns_lines=c2,
+                                                         col_BG_nodes=c3, col_BG_lines=c4, col_BG_surf=c5)),
+            "plot_mode_geo1": one(lambda r: obj.plot_mode_geo1(r, m, s, v, c1, c2, c3, c4, c5)),
+            "Geo1MplPlotter.plot_mode": one(lambda r: Geo1MplPlotter(obj.geo1, r).plot_mode(m, s, v, c1, c2, c3, c4, c5)),
+        }
+    return {
+        "keyword": one(lambda r: obj.plot_mode_geo2_mpl(algo_res=r, mode_nr=m, scaleF=s, view=v, color=col)),
+        "plot_mode_geo2_mpl": one(lambda r: obj.plot_mode_geo2_mpl(r, m, s, v, col)),
+        "Geo2MplPlotter.plot_mode": one(lambda r: Geo2MplPlotter(obj.geo2, r).plot_mode(m, s, v, col)),
+    }
+
+
+def plot_oracle(case, names, pl, collected):
+    """the property text on the artists of one mode plot -> None | what is wrong"""
+    segs, pts, polys = collected
+    phi = [row[pl["mode"] - 1] for row in pl["Phi"]]
+    scale = pl["scale"]
+    if case["kind"] == "geo1":
+        arrows = oracle_arrows1(case, names, phi, scale)
+        tol = 1e-9 * max(1.0, max(np.abs(b).max() for _, b in arrows))
+        P1 = [np.array([p]) for p in pts]
+        for k, (a, b) in enumerate(arrows):
+            if not contains(segs, np.array([a, b]), tol) or not contains(P1, np.array([a]), tol):
+                return ("arrow", "component %d of the mode shape is not drawn at the sensor named %s along its direction (arrow %s -> %s missing)" % (
+                    k, names[k], a.tolist(), b.tolist()))
+        C = [a for a, _ in arrows]
+        for (lk, base) in (("sensors lines", C), ("BG lines", None)):
+            if present(case, lk) and (base is not None or present(case, "BG nodes")):
+                B = base if base is not None else [np.array(r, float) for r in case["sheets"]["BG nodes"]["rows"]]
+                for r in case["sheets"][lk]["rows"]:
+                    if not contains(segs, np.array([B[int(r[0]) - 1], B[int(r[1]) - 1]]), tol):
+                        return ("%s-shift" % lk, "line %s of '%s' (one-based) is not drawn between its two nodes" % (r, lk))
+        return None
+    NP = oracle_points2(case, names, phi, scale)
+    tol = 1e-9 * max(1.0, np.abs(NP).max())
+    P1 = [np.array([p]) for p in pts]
+    for i in range(len(NP)):
+        if not contains(P1, NP[i:i + 1], tol):
+            return ("displacement", "point %d is not displayed at coordinates + mapped value x sign = %s" % (i + 1, NP[i].tolist()))
+    if present(case, "sensors lines"):
+        for r in case["sheets"]["sensors lines"]["rows"]:
+            if not contains(segs, np.array([NP[int(r[0]) - 1], NP[int(r[1]) - 1]]), tol):
+                return ("lines-shift", "line %s (one-based) is not drawn between its two displaced points" % (r,))
+    if present(case, "sensors surfaces") and polys:
+        for r in case["sheets"]["sensors surfaces"]["rows"]:
+            tri = np.array([NP[int(i) - 1] for i in r])
+            if not any(p.shape == tri.shape and np.allclose(sorted(p.tolist()), sorted(tri.tolist()), rtol=0, atol=tol) for p in polys):
+                return ("surf-shift", "surface %s (one-based) is not drawn on its three displaced points" % (r,))
+    return None
+
+
+def judged_state(case, names):
+    """what the oracle says about a table set: "well-formed" | "malformed" | None (not judged)"""
+    flt = case.get("fault")
+    if names is None or (flt or "").startswith("x:"):
+        return None
+    reason = oracle_malformed(case, names)
+    if bool(reason) != bool(flt):
+        return None
+    return "malformed" if reason else "well-formed"
+
+
+def geo_fields(kind):
+    return (["sens_names", "sens_coord", "sens_dir", "sens_lines", "bg_nodes", "bg_lines", "bg_surf"] if kind == "geo1" else
+            ["sens_names", "pts_coord", "sens_map", "cstrn", "sens_sign", "sens_lines", "sens_surf", "bg_nodes", "bg_lines", "bg_surf"])
+
+
+def run_positional(ctx, pools, geo_meta):
+    """A share of the table sets again, every public entry point called FULLY POSITIONALLY in the pristine parameter order with
+    non-default values: the answer must be the one of the keyword call, and the property must hold on it.
+    geo_meta: [(case, names, outcome of call_impl)] of the main stream."""
+    from pyoma2.functions import gen
+
+    rng = ctx.rng
+    K = ctx.n(10, 36)
+    groups = {}
+    for (case, names, impl) in geo_meta:
+        req = (G1_REQ if case["kind"] == "geo1" else G2_REQ)[1:]
+        if case["path"] != "func" and any(k not in case["sheets"] for k in req):
+            continue
+        groups.setdefault((case["kind"], "func" if case["path"] == "func" else "class"), []).append((case, names, impl, False))
+    chosen = []
+    for gk in sorted(groups):
+        lst = groups[gk]
+        st = [judged_state(c, n) for c, n, _i, _d in lst]
+        good = sorted((x for x, s in zip(lst, st) if s == "well-formed"), key=lambda x: -len(x[0]["sheets"]))  # most optional tables first
+        rest = [x for x, s in zip(lst, st) if s != "well-formed"]
+        more = good[K // 2:]
+        chosen += good[:K // 2] + rng.sample(more, min(len(more), K - K // 2 - 2)) + rng.sample(rest, min(len(rest), 2))
+    # table sets with EVERY optional table present (a shift or swap of two parameters moves a table that is there), on every path
+    for kind in ("geo1", "geo2"):
+        for path in ("func", "SingleSetup", "PreGER", "PoSER"):
+            for rep in range(ctx.n(2, 6)):
+                n = rng.randint(3, 5)
+                if path in ("PreGER", "PoSER") or (path == "func" and rep % 2):
+                    k = rng.randint(1, 2)
+                    setups, ref, flat = multi_layout(rng, n - k, k=k)
+                    w = max(len(s) for s in setups)
+                    nm = rng.choice([{"form": "lists", "v": setups}, {"form": "tab", "v": [s + [None] * (w - len(s)) for s in setups], "idx": None}])
+                else:
+                    flat, ref = pick_names(rng, n), None
+                    nm = {"form": rng.choice(["row", "list", "arr"]), "v": flat}
+                S = gen_geo1(rng, flat, extra=1, opts=G1_OPT) if kind == "geo1" else gen_geo2(rng, flat, opts=G2_OPT)
+                case = {"kind": kind, "path": path, "names": nm, "ref": ref, "sheets": cp(S), "fault": None, "plot": None}
+                if path != "func":
+                    for kk in ("sensors directions", "sensors lines", "sensors surfaces", "BG nodes", "BG lines", "BG surfaces"):
+                        if kk in case["sheets"] and rng.random() < 0.3:
+                            case["sheets"][kk]["arr"] = True
+                chosen.append((case, oracle_names(case), call_impl(case, pools)[:3], True))
+    nplots = {"geo1": ctx.n(7, 30), "geo2": ctx.n(7, 30)}
+    chosen.sort(key=lambda x: not x[3])  # those with every table first: they take the plot budget
+    for (case, names, ref_out, dedicated) in chosen:
+        kind = case["kind"]
+        func = case["path"] == "func"
+        site = SITE[kind][0 if func else 1]
+        state = judged_state(case, names)
+        tag = dict(case, observed="positional")
+        ctx.count(tag, nontrivial=True)
+        ctx.hist("positional call", "%s/%s" % (site, case["path"]))
+        order = "(file_dict, ref_ind%s)" % ("" if kind == "geo1" else ", fill_na") if func else "(%s)" % ", ".join(
+            ["sens_names", "sens_coord", "sens_dir"] + [ARG1[k] for k in POS_G1[3:]] if kind == "geo1" else ["sens_names", "pts_coord", "sens_map"] + [ARG2[k] for k in POS_G2[3:]])
+        pos = call_impl_pos(case, pools)
+        differs = not same_outcome(ref_out, pos)
+        if differs:
+            if ref_out[0] == "ok" and pos[0] == "ok":
+                i, x, y = first_diff(ref_out[1], pos[1])
+                what = "field %s is %s with keywords, %s positionally" % (geo_fields(kind)[i], x, y)
+            else:
+                what = "keywords give %s, the positional call %s" % (show_outcome(ref_out), show_outcome(pos))
+            ctx.fail("oracle", "%s: the documented positional call %s%s does not give what the same call with keywords gives: %s" % (site, site, order, what),
+                     tag, key=pos_key(site))
+        # the property on the positional call itself
+        bad = None
+        if state == "well-formed":
+            if pos[0] != "ok":
+                bad = ("well-formed-set-raises-%s" % pos[1], "a well-formed table set raised %s" % show_outcome(pos))
+            else:
+                exp = oracle_geo(case, names)
+                if exp != pos[1]:
+                    i, x, y = first_diff(exp, pos[1])
+                    bad = (geo_fields(kind)[i], "field %s is not what the property prescribes: expected %s got %s" % (geo_fields(kind)[i], x, y))
+        elif state == "malformed" and (pos[0] == "ok" or pos[1] not in ("ValueError", "ValidationError")):
+            bad = ("malformed-accepted" if pos[0] == "ok" else "malformed-set-raises-%s" % pos[1], "a malformed table set (%s) gave %s instead of ValueError" % (case.get("fault"), show_outcome(pos)))
+        if bad and (differs or dedicated):  # (the keyword form of the main stream is judged there)
+            ctx.fail("oracle", "%s called positionally %s: %s" % (site, order, bad[1]), tag, key=pos_key(site) if differs else "C19:%s:%s" % (site, bad[0]))
+        # third positional argument of check_on_geo2 with a value other than its default
+        if func and kind == "geo2":
+            kwf, posf = call_geo2_fill_kw(case, FILL_OTHER), call_impl_pos(case, pools, fill=FILL_OTHER)
+            if not same_outcome(kwf, posf):
+                if kwf[0] == posf[0] == "ok":
+                    i, x, y = first_diff(kwf[1], posf[1])
+                    what = "field %s is %s with the keyword, %s with the third positional argument" % (geo_fields(kind)[i], x, y)
+                else:
+                    what = "keywords give %s, the positional call %s" % (show_outcome(kwf), show_outcome(posf))
+                ctx.fail("oracle", "check_on_geo2(file_dict, ref_ind, %r) does not give what check_on_geo2(file_dict, ref_ind=..., fill_na=%r) gives: %s" % (FILL_OTHER, FILL_OTHER, what),
+                         tag, key=pos_key(site))
+        # the flattening of the names
+        if case["names"] is not None:
+            ref = None if case["ref"] is None else [list(r) for r in case["ref"]]
+
+            def flat_(f):
+                try:
+                    return ("ok", [str(x) for x in f(mk_names(case["names"]))])
+                except Exception as e:  # noqa: BLE001
+                    return ("err", type(e).__name__, str(e)[:160])
+            fk = flat_(lambda o: gen.flatten_sns_names(sens_names=o, ref_ind=ref))
+            fp = flat_(lambda o: gen.flatten_sns_names(o, ref))
+            if not same_outcome(fk, fp):
+                ctx.fail("oracle", "flatten_sns_names(sens_names, ref_ind) called positionally gives %s, with keywords %s" % (fp[1], fk[1]), tag, key=pos_key("flatten_sns_names"))
+            elif state == "well-formed" and dedicated and (fp[0] != "ok" or fp[1] != names):
+                ctx.fail("oracle", "flatten_sns_names: names %s, the property prescribes %s" % (fp[1], names), tag, key="C19:flatten_sns_names:names")
+        # the mode plots
+        if not func and pos[0] == "ok" and not differs and state == "well-formed" and nplots[kind] > 0:
+            nplots[kind] -= 1
+            n = len(names)
+            old = case.get("plot")
+            Phi = old["Phi"] if old and len(old["Phi"][0]) >= 2 else [[dy(rng, -16, 16, 8) for _ in range(3)] for _ in range(n)]
+            pl = {"Phi": Phi, "mode": 2, "scale": rng.choice([3, 0.5]), "view": rng.choice(["xy", "xz", "yz"]), "color": rng.choice(["blue", "green"])}
+            ptag = dict(tag, plot=pl, observed="positional-plot")
+            forms = plot_forms(case, pos[2], pl)
+            kw = forms.pop("keyword")
+            psite = SITE[kind][2]
+            ctx.count(ptag, nontrivial=True)
+            if kw[0] == "ok":
+                b = plot_oracle(case, names, pl, kw[1])
+                if b and dedicated:
+                    ctx.fail("oracle", "%s: %s" % (psite, b[1]), ptag, key="C19:%s:%s" % (psite, b[0]))
+            elif dedicated:
+                ctx.fail("oracle", "%s raised %s (%s) on a well-formed geometry" % (psite, kw[1], kw[2]), ptag, key="C19:%s:raises-%s" % (psite, kw[1]))
+            for form, out in sorted(forms.items()):
+                ctx.hist("positional call", form)
+                sig = "(algo_res, mode_nr, scaleF, view, %s)" % ("col_sns, col_sns_lines, col_BG_nodes, col_BG_lines, col_BG_surf" if kind == "geo1" else "color")
+                if form != psite:
+                    sig = "(" + sig[len("(algo_res, "):]
+                if out[0] != kw[0] or (out[0] == "err" and out[1] != kw[1]):
+                    ctx.fail("oracle", "%s%s called positionally gives %s, %s with keywords gives %s" % (
+                        form, sig, "a figure" if out[0] == "ok" else "%s (%s)" % out[1:], psite, "a figure" if kw[0] == "ok" else "%s (%s)" % kw[1:]), ptag, key=pos_key(form))
+                elif out[0] == "ok" and out[2] != kw[2]:
+                    d = next((a + "  |  " + b_ for a, b_ in zip(out[2], kw[2]) if a != b_), "%d artists vs %d" % (len(out[2]), len(kw[2])))
+                    b = plot_oracle(case, names, pl, out[1])
+                    ctx.fail("oracle", "%s%s called positionally with non-default values does not draw what %s draws with the same values as keywords%s; first difference (positional | keyword): %s" % (
+                        form, sig, psite, "" if not b else " (" + b[1] + ")", d[:400]), ptag, key=pos_key(form))
 
 
 # ------------------------------------------------------------------ generators
@@ -787,7 +1121,11 @@ def run(ctx):
                          "reference layouts; every subset of optional sheets) + every single-fault corruption of them + a malformed-names stream; "
                          "through gen.check_on_geo1/2 and def_geo1/2 of the three setup classes; dfphi_map_func on random tables; mode plots under Agg. "
                          "A case is non-trivial when its table order differs from the name order, or it carries a fault, an optional sheet, "
-                         "a constraint or a multi-setup name form; distinct by hash of the whole case")
+                         "a constraint or a multi-setup name form; distinct by hash of the whole case. "
+                         "[positional forms] a share of the table sets (those with most optional tables, plus sets with every optional table on every path) again with "
+                         "check_on_geo1/2, flatten_sns_names, dfphi_map_func, def_geo1/2, plot_mode_geo1, plot_mode_geo2_mpl and the plotter classes' plot_mode "
+                         "called fully positionally in the pristine parameter order with non-default values: same answer as the keyword call (fields / every artist "
+                         "with colours and view) and the property on it")
     ctx.assumptions += [
         "pandas semantics mirrored by the model (reindex incl. the duplicate-label ValueError, fillna, DataFrame.empty, sub, column selection, replace/astype(float)), pandas %s" % pd.__version__,
         "documented cell forms: names are not numeric literals, tables rectangular, index tables/coordinates/signs/coefficients numeric (outside them the model is not claimed faithful)",
@@ -1133,6 +1471,9 @@ def run(ctx):
             if MM is None or MM.shape != M.shape or not np.allclose(M, MM, rtol=0, atol=tol, equal_nan=True):
                 ctx.fail("correspondence", "dfphi_map_func differs from the model: %s vs %s" % (M.tolist(), parts[2][:200]), case, key="C19:dfphi_map_func:corr")
 
+    # ---- (4c) a share of the table sets again with every entry point called fully positionally (pristine parameter order)
+    run_positional(ctx, pools, [(m_[0], m_[1], m_[2]) for m_ in meta])
+
     # ---- (5) dfphi_map_func called directly on random tables (raw NaN cells, unknown names, positional constraint matrix)
     exprs, meta = [], []
     for rep in range(ctx.n(60, 400)):
@@ -1154,6 +1495,16 @@ def run(ctx):
             out = ("ok", gen.dfphi_map_func(np.array(phi), list(names), smap, cstrn=cdf).to_numpy())
         except Exception as e:  # noqa: BLE001
             out = ("err", type(e).__name__)
+        # the same call fully positionally (phi, sens_names, sens_map, cstrn): bit-equal answer, same kind of exception
+        try:
+            outp = ("ok", gen.dfphi_map_func(np.array(phi), list(names), mk_df(sheet(XYZ, list(range(1, npts + 1)), grid)), mk_df(sheet(names, cn, cm)) if ncs else None).to_numpy())
+        except Exception as e:  # noqa: BLE001
+            outp = ("err", type(e).__name__)
+        if out[0] != outp[0] or (out[0] == "err" and out[1] != outp[1]) or (out[0] == "ok" and not (
+                out[1].shape == outp[1].shape and np.array_equal(out[1], outp[1], equal_nan=True))):
+            ctx.fail("oracle", "dfphi_map_func(phi, sens_names, sens_map, cstrn) called positionally gives %s, with cstrn as keyword %s" % (
+                outp[1].tolist() if outp[0] == "ok" else outp[1], out[1].tolist() if out[0] == "ok" else out[1]), dict(case, observed="positional"),
+                key=pos_key("dfphi_map_func"))
         ctx.count(case, nontrivial=True)
         ctx.hist("dfphi outcome", out[0] if out[0] == "ok" else out[1])
         exprs.append("showRes showOMat (dfphi_map %s %s %s %s)" % (
